@@ -1,7 +1,7 @@
 """C12 — single-decree Paxos world (real ``PaxosNode`` objects)."""
 from __future__ import annotations
 
-from props.c12_worlds import NetWorld, fixed_random, freeze  # noqa: F401
+from props.c12_worlds import NetWorld, fixed_random, freeze, node_canon  # noqa: F401
 
 from happysimulator.components.consensus.paxos import PaxosNode
 
@@ -18,10 +18,17 @@ class PaxosWorld(NetWorld):
     """
 
     def __init__(self, n=3, proposers=(0, 1), max_retries=1, max_ballot=3, double=False,
-                 initial=()):
+                 mute=(), cut=(), max_moves=None, live=False, initial=()):
         super().__init__()
         self.p = dict(n=n, proposers=tuple(proposers), max_retries=max_retries, max_ballot=max_ballot,
-                      double=double)
+                      double=double, mute=tuple(mute), cut=tuple(tuple(c) for c in cut), max_moves=max_moves,
+                      live=live)
+        assert not (live and (mute or cut or len(self.p["proposers"]) != 1 or double)), \
+            "liveness premise: fault-free network, a single proposer"
+        self.conf = False
+        self.accept_sent = {}  # (ballot, dst) -> number of Accept messages sent
+        self.abandoned = {}  # node -> ballot numbers given up by a retry
+        self.moves = 0
         nodes = [PaxosNode(NAMES[i], self.net, retry_delay=1.0) for i in range(n)]
         for nd in nodes:
             nd.set_peers(nodes)
@@ -29,7 +36,6 @@ class PaxosWorld(NetWorld):
         self.proposed = []  # values handed to propose(), in order
         self.futures = []  # (node name, value, SimFuture)
         self.first_decided = {}  # node -> first reported decided value (repr-safe)
-        self.accept_values = {}  # (ballot number, ballot node) -> sorted tuple of values seen in Accept
         self.flags = set()  # shape facts for fingerprints
         self.viol = []
         for lab in initial:
@@ -45,6 +51,15 @@ class PaxosWorld(NetWorld):
                 out.append(("propose", nm, f"v{nm}{k if k else ''}"))
         return out
 
+    def deliverable(self, m):
+        if m[0] in self.p["mute"]:
+            return False
+        return (m[1]["source"], m[1]["destination"]) not in self.p["cut"]
+
+    def apply(self, lab):
+        self.moves += 1
+        super().apply(lab)
+
     def apply_client(self, lab):
         _, nm, val = lab
         node = self.by_name[nm]
@@ -55,20 +70,34 @@ class PaxosWorld(NetWorld):
         if not fut.is_resolved:
             self.absorb(node.start_phase1())
 
+    def conflict(self):
+        return self.conf
+
+    def outcome(self):
+        return (tuple((nd.is_decided, nd.decided_value) for nd in self.nodes),
+                tuple((f.is_resolved, f.value if f.is_resolved else None) for _n, _v, f in self.futures))
+
     def on_send(self, etype, md):
+        if etype == "PaxosNack" or (etype == "PaxosPromise" and md.get("accepted_ballot_number") is not None):
+            self.conf = True
         if etype == "PaxosAccept":
-            key = (md["ballot_number"], md["ballot_node"])
-            vals = set(self.accept_values.get(key, ()))
-            vals.add(repr(md["value"]))
-            self.accept_values[key] = tuple(sorted(vals))
-            if len(vals) > 1:
-                self.flags.add("two-values-one-ballot")
-            if md["value"] not in self.proposed:
-                self.flags.add("unproposed-accept")
+            k2 = (md["ballot_number"], md["ballot_node"], md["destination"])
+            self.accept_sent[k2] = self.accept_sent.get(k2, 0) + 1
+            if self.accept_sent[k2] > 1:
+                self.flags.add("phase2-restart")
 
     def before_handle(self, node, etype, md):
+        if etype in ("PaxosPrepare", "PaxosAccept"):
+            pb = getattr(node, "_promised_ballot", None)
+            if pb is not None and getattr(pb, "node_id", None) != md.get("ballot_node"):
+                self.conf = True  # ballots of two proposers meet at this acceptor
         if etype == "PaxosRetry":
             self.flags.add("retry")
+            self.abandoned[node.name] = tuple(sorted(set(self.abandoned.get(node.name, ())) |
+                                                     {md.get("original_ballot")}))
+        elif etype in ("PaxosPromise", "PaxosAccepted"):
+            if md.get("ballot_number") in self.abandoned.get(node.name, ()):
+                self.flags.add("stale-reply")
 
     # -- ghosts / oracle ---------------------------------------------------
     def observe(self):
@@ -88,10 +117,11 @@ class PaxosWorld(NetWorld):
                                   f"node {nd.name} reported a decision and later is_decided == False"))
 
     def shape(self):
-        if "unproposed-accept" in self.flags:
-            return "unproposed-value-in-accept"
-        if "two-values-one-ballot" in self.flags:
-            return "two-values-one-ballot"
+        """Mechanism facts seen on the way (all observable on the wire), most specific first."""
+        if "phase2-restart" in self.flags:
+            return "phase2-restarted-by-late-promise"
+        if "stale-reply" in self.flags:
+            return "reply-to-ballot-abandoned-by-retry"
         if "retry" in self.flags:
             return "after-retry"
         return "plain"
@@ -122,10 +152,24 @@ class PaxosWorld(NetWorld):
                 elif not dec:
                     out.append((f"Paxos/future-value/resolved-before-any-decision",
                                 f"propose({val!r}) future at {nm} resolved with {fv!r} while no node reports a decision"))
+        if self.p["live"] and self.futures and not self.msgs and not self.live_timers():
+            # fault-free network, single proposer, everything delivered, no retry pending
+            for nd in self.nodes:
+                if not nd.is_decided or nd.decided_value != self.proposed[0]:
+                    out.append((f"Paxos/liveness/single-proposer-not-decided-everywhere",
+                                f"quiescent fault-free run: node {nd.name} is_decided={nd.is_decided} "
+                                f"value={nd.decided_value!r}, proposed {self.proposed}"))
+                    break
+            for nm, val, fut in self.futures:
+                if not fut.is_resolved:
+                    out.append((f"Paxos/liveness/single-proposer-future-unresolved",
+                                f"quiescent fault-free run: propose({val!r}) future at {nm} never resolved"))
         return out
 
     def within(self):
         if self.cnt("timer") > self.p["max_retries"]:
+            return False
+        if self.p["max_moves"] is not None and self.moves >= self.p["max_moves"]:
             return False
         mb = self.p["max_ballot"]
         for nd in self.nodes:
@@ -137,10 +181,29 @@ class PaxosWorld(NetWorld):
     def counts_in_canon(self):
         return {"timer": self.cnt("timer")}
 
+    def canon_nodes(self):
+        fidx = {id(f): i for i, (_n, _v, f) in enumerate(self.futures)}
+        out = []
+        for nd in self.nodes:
+            try:
+                out.append((
+                    nd.name, nd._promised_ballot, nd._accepted_ballot, nd._accepted_value, nd._current_ballot,
+                    nd._decided, nd._decided_value,
+                    tuple(sorted((k, fidx.get(id(f), -1)) for k, f in nd._proposal_futures.items())),
+                    tuple(sorted((k, tuple(sorted(repr((r.get("accepted_ballot"), r.get("accepted_value")))
+                                                  for r in v))) for k, v in nd._phase1_responses.items())),
+                    tuple(sorted(nd._phase2_responses.items())),
+                    tuple(sorted(nd._proposed_values.items(), key=repr)),
+                ))
+            except AttributeError:  # refactored internals: fall back to the generic freeze
+                out.append(node_canon(nd))
+        return tuple(out)
+
     def canon_ghost(self):
         return (tuple(self.proposed), freeze(self.first_decided),
                 tuple((n, v, f.is_resolved, repr(f.value) if f.is_resolved else None) for n, v, f in self.futures),
-                tuple(sorted(self.accept_values.items())),
+                tuple(sorted(self.accept_sent.items())),
+                tuple(sorted(self.abandoned.items())),
                 tuple(sorted(map(repr, self.flags))))
 
     def describe(self):
